@@ -127,6 +127,10 @@ static std::vector<Instance> instances(const std::string &tier) {
 	// erase and re-insert in a leaf while a reader looks up a neighbour in the same leaf and the erased key
 	add("S4-erase-neighbour", Bq, Script{{{false, A}, {false, C}}, {{true, C}, {false, A + 2}}, {{A, C}}});
 	add("S5-erase-reinsert-other-reader", Bq, Script{{{false, A}, {false, C}, {false, B}}, {{true, C}, {false, C}, {false, F}}, {{A, B}}});
+	// a leaf whose only key is erased, then a key with another prefix but the same last nibble goes where that leaf hangs
+	// (at the root / below an inner node) while a reader that is already inside the leaf looks for the erased key
+	add("S8-emptied-leaf-then-other-prefix", Bq, Script{{{false, A}}, {{true, A}, {false, B}}, {{A, B}}});
+	add("S9-emptied-leaf-below-inner", Bq, Script{{{false, A}, {false, B}}, {{true, A}, {false, D}}, {{A, D}}});
 	if(th) {
 		add("S6-two-readers", 2, Script{{{false, A}}, {{false, B}, {false, D}}, {{A, B}, {D, A}}});
 		add("S7-long-writer", 2, Script{{}, {{false, A}, {false, B}, {false, C}, {false, D}, {true, A}}, {{A, D}}});
